@@ -56,7 +56,7 @@ func (prop) Cases(tier string) int {
 func (prop) Info() fw.Info {
 	return fw.Info{
 		Level: "exploration",
-		Rule: "cases enumerate every import digraph (self loops, 2-cycles, diamonds included) on 1 and 2 files, every 4th (quick; offset by seed) or every one (thorough) of the 512 digraphs on 3 files, thorough also every 64th of the 65536 digraphs on 4 files, then random graphs on 4..8 files, then depth-race graphs (a file reachable from the root through a short and a long path with a tail of imports below it, with the depth limits that cut the tail along the long path only), each with PRNG-chosen import spellings (relative, ./, x/../, ../, root-relative, with/without extension); for each graph, without depth limit and with one or two depth limits, the schedule controller enumerates the release orders of parked collectSpecs entries and parked reads (odometer over choice points, capped; beyond the cap PRNG-chosen schedules), plus free-running stress cases at GOMAXPROCS 1/2/16. Oracles per execution: reference closure from the graph alone (reachable files, BFS distance < limit, depth-first pre-order) vs the processed-file order and the marker applications in the model; exactly one claim and one read per file; every invocation returned before collection ends; shared application carries one source context per contributing file in processing order; model equal (proto) across all schedules and to an uncontrolled compile; no race report. Non-trivial: >= 2 distinct interleavings or a cycle/diamond; distinct by graph+spellings.",
+		Rule: "cases enumerate every import digraph (self loops, 2-cycles, diamonds included) on 1 and 2 files, every 4th (quick; offset by seed) or every one (thorough) of the 512 digraphs on 3 files, thorough also every 64th of the 65536 digraphs on 4 files, then random graphs on 4..8 files (every sixth a fan: the root imports 5-6 files directly), then depth-race graphs (a file reachable from the root through a short and a long path with a tail of imports below it, with the depth limits that cut the tail along the long path only), each with PRNG-chosen import spellings (relative, ./, x/../, ../, root-relative, with/without extension); for each graph, without depth limit and with one or two depth limits, the schedule controller enumerates the release orders of parked collectSpecs entries and parked reads (odometer over choice points, capped; beyond the cap PRNG-chosen schedules), plus free-running stress cases at GOMAXPROCS 1/2/16. Oracles per execution: reference closure from the graph alone (reachable files, BFS distance < limit, depth-first pre-order) vs the processed-file order and the marker applications in the model; exactly one claim and one read per file; every invocation returned before collection ends; shared application carries one source context per contributing file in processing order; model equal (proto) across all schedules and to an uncontrolled compile; no race report. Non-trivial: >= 2 distinct interleavings or a cycle/diamond; distinct by graph+spellings.",
 		Assumptions: []string{"hook events are emitted at the documented points of collectSpecs (entry before the claim lock, won/lost after it is released)", "one controlled execution at a time per worker process (hook variables are global)", "remote (versioned git) imports are not generated: they need the network"},
 		Race:        true,
 		CaseTimeout: 600,
@@ -301,6 +301,8 @@ func (prop) Run(ctx *fw.Ctx, i int) fw.Result {
 		for k := 0; k < batch4; k++ {
 			graphs = append(graphs, sched.FromBits(4, uint64(b*batch4+k)*64+ctx.Seed%64, r))
 		}
+	case i < n1+n2+n3+e4+rnd && i%6 == 0:
+		graphs = append(graphs, sched.Fan(r)) // the root imports five or six files directly
 	case i < n1+n2+n3+e4+rnd:
 		graphs = append(graphs, sched.Random(r.Range(4, 8), r))
 	default:
